@@ -358,6 +358,26 @@ int process_start(pid_t *process,
 
     int redirect[] = { options.handle.in, options.handle.out,
                        options.handle.err };
+    bool copied[] = { false, false, false };
+
+    // A source that is itself one of the standard stream numbers (a handle
+    // supplied by the user, or the parent's stdout used for the child's stderr)
+    // would be overwritten by the `dup2` of an earlier stream, and marking it
+    // close-on-exec below would close a standard stream of the child. Work on
+    // a copy above the standard streams instead. All copies are made before
+    // the first `dup2`.
+    for (int i = 0; i < (int) ARRAY_SIZE(redirect); i++) {
+      if (redirect[i] >= 0 && redirect[i] <= 2 && redirect[i] != i) {
+        r = fcntl(redirect[i], F_DUPFD_CLOEXEC, 3);
+        if (r < 0) {
+          r = -errno;
+          goto child;
+        }
+
+        redirect[i] = r;
+        copied[i] = true;
+      }
+    }
 
     for (int i = 0; i < (int) ARRAY_SIZE(redirect); i++) {
       // `i` corresponds to the standard stream we need to redirect.
@@ -371,9 +391,18 @@ int process_start(pid_t *process,
       // child process when we're inheriting the parent standard streams. If we
       // don't call `exec`, the caller is responsible for closing the redirect
       // and exit handles.
-      if (redirect[i] != i) {
+      if (copied[i]) {
+        handle_destroy(redirect[i]);
+      } else if (redirect[i] != i) {
         // Make sure the pipe is closed when we call exec.
         r = handle_cloexec(redirect[i], true);
+        if (r < 0) {
+          goto child;
+        }
+      } else {
+        // `dup2` onto itself does nothing: a handle that already sits on its
+        // target must not stay close-on-exec.
+        r = handle_cloexec(i, false);
         if (r < 0) {
           goto child;
         }
